@@ -194,6 +194,8 @@ pub struct CaseStats {
     pub success_checks: u64,
     pub boundary_err: Option<u64>,
     pub inflated: bool,
+    pub hostile_tried: u64,
+    pub hostile_accepted: u64,
     /// strict reading: successes whose health is negative once debts of >= 1 native unit that the program ignores
     /// (fewer than one liability share) are counted; (message, amount) of the first
     pub strict_hits: u64,
@@ -456,6 +458,48 @@ pub fn run_case(c: &PortCase, stats: &mut CaseStats) -> Result<(), (String, Stri
             check_success(&vm, &acct, &format!("{kind}({a})"), stats)?;
         }
     }
+    // hostile presentation of the observation accounts: amounts the program refuses with the honest list are retried
+    // with defective lists (none at all; one bank's group dropped; two groups swapped; one group duplicated over
+    // another). The program may refuse, or accept if what it saw still justifies it - any acceptance is judged on the
+    // real post-state like every other success.
+    if err_above.is_some() {
+        let inc = if kind == "borrow" { Some(w.banks[probe_bank].key) } else { None };
+        let mut keys: Vec<solana_program::pubkey::Pubkey> = snap.lending_account.balances.iter().filter(|b| b.active != 0).map(|b| b.bank_pk).collect();
+        if let Some(k) = inc {
+            if !keys.contains(&k) {
+                keys.push(k);
+            }
+        }
+        keys.sort_by(|a, b| b.cmp(a));
+        let groups: Vec<Vec<solana_program::instruction::AccountMeta>> = keys.iter().map(|k| w.risk_metas_for_bank(k)).collect();
+        let mut variants: Vec<(&'static str, Vec<solana_program::instruction::AccountMeta>)> = vec![("none", vec![])];
+        for skip in 0..groups.len().min(4) {
+            variants.push(("one-bank-dropped", groups.iter().enumerate().filter(|(i, _)| *i != skip).flat_map(|(_, g)| g.clone()).collect()));
+        }
+        if groups.len() >= 2 {
+            let mut g2 = groups.clone();
+            g2.swap(0, 1);
+            variants.push(("two-swapped", g2.into_iter().flatten().collect()));
+            let mut g3 = groups.clone();
+            g3[1] = g3[0].clone();
+            variants.push(("one-duplicated-over-another", g3.into_iter().flatten().collect()));
+            let mut g4 = groups.clone();
+            let last = g4.len() - 1;
+            g4[last] = g4[0].clone();
+            variants.push(("one-duplicated-over-another", g4.into_iter().flatten().collect()));
+        }
+        for amt in [a_star.saturating_add(1), upper] {
+            for (vname, metas) in &variants {
+                let ix = if kind == "withdraw" { w.ix_withdraw_with(acct, usr.auth, probe_bank, usr.tokens[probe_bank], amt, None, metas.clone()) } else { w.ix_borrow_with(acct, usr.auth, probe_bank, usr.tokens[probe_bank], amt, metas.clone()) };
+                let mut vm = w.vm.clone();
+                stats.hostile_tried += 1;
+                if vm.exec(&ix).is_ok() {
+                    stats.hostile_accepted += 1;
+                    check_success(&vm, &acct, &format!("{kind}({amt}) with hostile observation accounts [{vname}]"), stats)?;
+                }
+            }
+        }
+    }
     // converse at the frontier: rejected for health at a*+1 although clearly healthy. The state the
     // action would have produced is obtained exactly by running it inside a flash-loan bracket
     // (health checks are skipped inside the bracket) and observing the uncommitted state.
@@ -538,6 +582,8 @@ pub fn run(ctx: &Ctx) -> Report {
                     rep.label(&format!("feature:{f}"));
                 }
                 rep.add_extra("success_side_checks", st.success_checks);
+                rep.add_extra("hostile_observation_lists_tried", st.hostile_tried);
+                rep.add_extra("hostile_observation_lists_accepted", st.hostile_accepted);
                 rep.set_max("max_interval_width", st.widths);
                 if st.frontier && st.binds_health && !st.features.is_empty() {
                     let wj = json!({"f": st.features, "n": st.n_positions, "k": c.probe_kind, "b": c.spec.banks.len(), "d": c.deposits.len(), "r": c.borrows.len()});
